@@ -1886,7 +1886,7 @@ func (g Gateway) Uint32SlicePush(ctx context.Context, in *hydrapb.AddToUint32Sli
 		return nil, status.Error(codes.InvalidArgument, fmt.Sprintf("the following errors occurred: %s", strings.Join(errorsWhilePush, ", ")))
 	}
 
-	return nil, nil
+	return &hydrapb.AddToUint32SlicePushResponse{}, nil
 
 }
 
@@ -1965,7 +1965,7 @@ func (g Gateway) Uint32SliceDelete(ctx context.Context, in *hydrapb.Uint32SliceD
 		return nil, status.Error(codes.InvalidArgument, fmt.Sprintf("the following errors occurred: %s", strings.Join(errorsWhileDelete, ", ")))
 	}
 
-	return nil, nil
+	return &hydrapb.Uint32SliceDeleteResponse{}, nil
 
 }
 
